@@ -216,6 +216,28 @@ impl<'a, 'b> TypeGen<'a, 'b> {
                 }
                 let take = self.c.range(1, rest.len() - 1);
                 let part: Vec<Prop> = rest.drain(..take).collect();
+                // the heritage clause may itself be a utility type: `extends Partial<Base>`
+                let no_getter = part.iter().all(|p| p.kind != Kind::Getter);
+                if no_getter && part.iter().all(|p| p.optional) && self.c.chance(1, 3) {
+                    let mut m2 = part.clone();
+                    for p in m2.iter_mut() {
+                        p.optional = self.c.bool();
+                    }
+                    self.label("extends-utility-type");
+                    let base = self.named(&m2, depth + 1);
+                    parents.push(format!("Partial<{base}>"));
+                    continue;
+                }
+                if no_getter && part.iter().all(|p| !p.optional) && self.c.chance(1, 3) {
+                    let mut m2 = part.clone();
+                    for p in m2.iter_mut() {
+                        p.optional = self.c.bool();
+                    }
+                    self.label("extends-utility-type");
+                    let base = self.named(&m2, depth + 1);
+                    parents.push(format!("Required<{base}>"));
+                    continue;
+                }
                 parents.push(self.named(&part, depth + 1));
             }
             self.label("interface-extends");
